@@ -547,6 +547,8 @@ int main(int argc, char **argv)
 	if (mkdir(tmpdir, 0700) != 0 && errno != EEXIST) { perror("mkdir"); return 2; }
 	atexit(cleanup);
 	reset_case();
+	/* line-buffered: a sanitizer abort must not swallow the results of the cases before it */
+	setvbuf(stdout, NULL, _IOLBF, 0);
 	while ((line = hc_line()) != NULL) {
 		nw = hc_words(line, w, 8);
 		if (nw == 1 && strcmp(w[0], "#case") == 0) {
